@@ -244,9 +244,8 @@ Proof.
       rewrite skipn_skipn. replace (w + k * w) with (S k * w) by lia. f_equal. f_equal.
       rewrite <- app_assoc. f_equal. cbn [app].
       cbn [seq map]. rewrite <- seq_shift, map_map. f_equal.
-      * unfold std_row. fold w. reflexivity.
-      * apply map_ext. intros r. unfold std_row. fold w. rewrite skipn_skipn.
-        now replace (w + r * w) with (S r * w) by lia.
+      apply map_ext. intros r. unfold std_row. fold w. rewrite skipn_skipn.
+      now replace (w + r * w) with (S r * w) by lia.
     + destruct (Nat.leb_spec (S k * w) (length src)) as [Hle3|Hgt3]; [lia|reflexivity].
 Qed.
 
@@ -277,10 +276,10 @@ Qed.
 Lemma chol_rows_length a n : forall is_ rows L,
   chol_rows ops a n is_ rows = Some L -> length L = length rows + length is_.
 Proof.
-  induction is_ as [|i is_ IH]; intros rows L H; simpl in H.
-  - inversion H. simpl. lia.
+  induction is_ as [|i is_ IH]; intros rows L H; cbn [chol_rows] in H.
+  - inversion H. cbn [length]. lia.
   - destruct (chol_row ops a rows i (seq 0 (S i)) []) as [r|]; [|discriminate].
-    apply IH in H. rewrite app_length in H. simpl in *. lia.
+    apply IH in H. rewrite app_length in H. cbn [length] in *. lia.
 Qed.
 
 Lemma cholesky_length cov L : cholesky ops cov = Some L -> length L = length cov.
@@ -365,9 +364,10 @@ Theorem mvt_new_spec mean cov :
 Proof.
   unfold mvt_new. split; [|split].
   - intros H. apply Nat.eqb_neq in H. now rewrite H.
-  - intros H1 H2. rewrite <- H1, Nat.eqb_refl. cbn [negb]. rewrite H1.
+  - intros H1 H2. apply Nat.eqb_eq in H1. rewrite H1. cbn [negb].
     apply Nat.eqb_neq in H2. now rewrite H2.
-  - intros H1 H2. rewrite <- H1, Nat.eqb_refl. cbn [negb]. now rewrite H1, H2, Nat.eqb_refl.
+  - intros H1 H2. apply Nat.eqb_eq in H1. rewrite H1. cbn [negb].
+    apply Nat.eqb_eq in H2. now rewrite H2.
 Qed.
 
 End Multivariate.
